@@ -125,6 +125,7 @@ let run_cr (a : string list) : string =
         | [_; c; o; t] -> { cur = parse_file c; old = parse_file o; tmp = parse_file t }
         | [_; c; o] -> { cur = parse_file c; old = parse_file o; tmp = None }
         | _ -> empty_fs) in
+    let writer = if List.mem "w:bias" rest then w_bias else if List.mem "w:replica" rest then w_replica else w_restart in
     let sessions = List.map (fun toks ->
         let saves = List.filter_map (fun t ->
             if String.length t > 2 && String.sub t 0 2 = "s:" then
@@ -143,7 +144,7 @@ let run_cr (a : string list) : string =
     (* run the sessions one by one to print the directory after each *)
     let fs = ref fs0 in
     let outs = List.map (fun (saves, plan) ->
-        let (m, rs) = session (start !fs plan) saves in
+        let (m, rs) = session_w writer (start !fs plan) saves in
         fs := m.m_fs;
         Printf.sprintf "results=%s trace=%s %s safe=%b reg=%s"
           (String.concat "," (List.map result_str rs))
